@@ -173,12 +173,12 @@ ADDED = {
     "C04": "R-LINKS / R-REFIT on the AABB tree that backs RigidBody.aabb(); R-HALFSIZE; R-PUREARGS.",
     "C05": "R-TRAVERSE additionally: no exit before the traversal (no pre-filter on the query box). R-CLOSED is decided by abstract evaluation of aabb_overlap's body on all 729 order types of the six bound pairs (loops, early exits and negations included).",
     "C06": "R-CLOSED by abstract evaluation (see C05).",
-    "C07": "R-LOUDCAP: running out of polytope faces is asserted, never a silent break.",
+    "C07": "R-TOLUNIT (self.epsilon is compared with quantities of one length degree only). R-LOUDCAP: running out of polytope faces is asserted, never a silent break.",
     "C08": "R-ERICSON (point_to_triangle, used for depth and direction); R-PORTALDIR.",
     "C09": "R-MAINLOOP, R-SUPPORTSIBLING (see C02); R-COFACTORSIGN: every cofactor comparison in BarycentricCoordinates is `d > c` or its exact complement `d <= c`.",
-    "C10": "R-SEGSIBLING (_line_to_line_segment is _line_segment_to_line_segment minus the clamping of t); R-PARALLELSIGN (parallel tests are orientation independent); R-ERICSON (point_to_triangle); R-HALFSIZE; R-PUREARGS.",
-    "C11": "R-SEGSIBLING; R-PARALLELSIGN; R-ERICSON; R-SIDES (x2 computed from side-2 data: the rectangle extents); R-HALFSIZE.",
-    "C12": "R-MIRROR / R-CASEDISPATCH / R-TOURNAMENT / R-BOXFACE: the line-to-box case analysis is invariant under relabelling of the box axes.",
+    "C10": "R-TOLUNIT (each epsilon parameter is compared with quantities of a single length degree; three upstream exceptions are named); R-SEGSIBLING (_line_to_line_segment is _line_segment_to_line_segment minus the clamping of t); R-PARALLELSIGN (parallel tests are orientation independent); R-ERICSON (point_to_triangle); R-HALFSIZE; R-PUREARGS.",
+    "C11": "R-TOLUNIT; R-SEGSIBLING; R-PARALLELSIGN; R-ERICSON; R-SIDES (x2 computed from side-2 data: the rectangle extents); R-HALFSIZE.",
+    "C12": "R-TOLUNIT (tolerances keep one length degree: scale covariance of the degeneracy tests); R-MIRROR / R-CASEDISPATCH / R-TOURNAMENT / R-BOXFACE: the line-to-box case analysis is invariant under relabelling of the box axes.",
     "C13": "R-SQRTDOMAIN for np.sqrt in the predicates; R-HALFSIZE over the predicates and the point_to_<shape> functions they must agree with; R-PUREARGS.",
     "C14": "R-SHORTCUTS; R-ADJACENCY; R-PUREARGS.",
     "C15": "R-ANGLESORT (contact polygon ordered by arctan2(y, x) about the centroid); R-BOUNDEDSTORE (counter-indexed stores into local buffers are bounded by a check or by the loop count); R-STIFFNESS: both terms of the contact-plane expression carry the same Young's-modulus exponents (dimensional bookkeeping with E1, E2 as units); "
